@@ -425,6 +425,14 @@ impl Walrus {
     }
 }
 
+impl Drop for Walrus {
+    fn drop(&mut self) {
+        // Clean/dirty markers are persisted asynchronously; a clean shutdown must not
+        // lose the latest change.
+        let _ = self.topic_clean_tracker.flush_all();
+    }
+}
+
 impl Walrus {
     fn rebuild_topic_entry_counts_after_recovery(
         &self,
